@@ -156,7 +156,7 @@ def csr_counter(ctx):
     KEEP = tuple({n.id for n in ast.walk(fn) if isinstance(n, ast.Name)} - arith)
     S = roles.stores(fn.body, defs, keep=KEEP, lv=False)
     deep = [s for s in S if len(s.loops) == 5]
-    ok, msg = False, "innermost loop nest not found"
+    ok, msg = None, "innermost loop nest not found"
     if deep:
         lT, lP, lC, lS, lQ = deep[0].loops
         incs = [s for s in deep if s.op != "=" and isinstance(s.tnode, ast.Name)]
